@@ -51,7 +51,7 @@ static inline ptrdiff_t creader_readline(struct creader *reader,
     }
 
     // Шагаем в конец строки.
-    while (*it != '\n' && *it != '\0' && it != reader->fini)
+    while (it != reader->fini && *it != '\n' && *it != '\0')
         it++;
 
     // Обновляем положение курсора.
